@@ -6,6 +6,8 @@
 //!
 //! A case is one line of the driver's protocol, so the same text is fed to the Lean driver.
 mod common;
+#[cfg(feature = "pool")]
+mod pool_shim;
 mod dns;
 // the daemon's own modules, copied from the repository under test by build.rs (group `reload`)
 #[allow(dead_code, unused_imports)]
@@ -31,6 +33,9 @@ mod g_reader;
 mod g_tsig;
 mod g_writer;
 mod g_server;
+mod g_srvscan;
+mod g_srvsafe;
+mod g_srvtsig;
 mod g_zonefile;
 mod g_include;
 mod g_pool;
@@ -43,6 +48,10 @@ use common::*;
 fn main() {
     let args: Vec<String> = std::env::args().collect();
     silence_panics();
+    #[cfg(feature = "pool")]
+    if args.len() >= 2 && (args[1] == "pool-worker" || args[1] == "pool-exec") {
+        std::process::exit(g_pool::sub_main(&args));
+    }
     if args.len() >= 6 && args[1] == "gen" {
         let group = args[2].as_str();
         let thorough = args[3] == "thorough";
@@ -57,11 +66,19 @@ fn main() {
             "catalog" => g_catalog::gen(&mut rng, thorough, &mut em),
             "zone" => g_zone::gen(&mut rng, thorough, &mut em),
             "rrl" => g_rrl::gen(&mut rng, thorough, &mut em),
+            "rrlkey" => g_rrl::gen_group("rrlkey", &mut rng, thorough, &mut em),
+            "rrlburst" => g_rrl::gen_group("rrlburst", &mut rng, thorough, &mut em),
             "reader" => g_reader::gen(&mut rng, thorough, &mut em),
             "tsig" => g_tsig::gen(&mut rng, thorough, &mut em),
             "writer" => g_writer::gen(&mut rng, thorough, &mut em),
             "writerptr" => g_writer::gen_ptr(&mut rng, thorough, &mut em),
             "server" => g_server::gen(&mut rng, thorough, &mut em),
+            "srvhdr" => g_srvscan::gen_hdr(&mut rng, thorough, &mut em),
+            "srvzone" => g_srvscan::gen_zone_sel(&mut rng, thorough, &mut em),
+            "srvform" => g_srvscan::gen_form(&mut rng, thorough, &mut em),
+            "srvedns" => g_srvscan::gen_edns(&mut rng, thorough, &mut em),
+            "srvsafe" => g_srvsafe::gen(&mut rng, thorough, &mut em),
+            "srvtsig" => g_srvtsig::gen(&mut rng, thorough, &mut em),
             "serverdbg" => g_server::debug_big(&mut rng),
             "zonefile" => g_zonefile::gen(&mut rng, thorough, &mut em),
             "include" => g_include::gen(&mut rng, thorough, &mut em),
@@ -129,6 +146,12 @@ pub fn run_case(case: &str) -> String {
         return r;
     }
     if let Some(r) = g_server::run(op, &args) {
+        return r;
+    }
+    if let Some(r) = g_srvsafe::run(op, &args) {
+        return r;
+    }
+    if let Some(r) = g_srvtsig::run(op, &args) {
         return r;
     }
     if let Some(r) = g_zonefile::run(op, &args) {
